@@ -165,7 +165,7 @@ fn io_case(rng: &mut Rng) -> (String, String) {
         if let Some(w) = want { if after != w && verdict == "ok" { verdict = format!("FAIL miscount call={i} {c:?} result={r2} position {before}->{after} expected {w}"); } }
     }
     let _ = case;
-    (format!("ADAPT FX={} 0 ; {}", std::env::var("VERIF_FX").unwrap_or_default(), toks.join(" ; ")), format!("{} ORACLE {verdict}", positions.join(" ")))
+    (format!("ADAPT FX={} 0 ; {}", crate::common::fx("adapt"), toks.join(" ; ")), format!("{} ORACLE {verdict}", positions.join(" ")))
 }
 
 fn iter_case(rng: &mut Rng) -> (String, String) {
